@@ -1046,3 +1046,130 @@ def embedding_text(cls_short):
         if plain and not (ali == plain or (ali.startswith(plain) and ali[len(plain):].strip(' "`') in ("zz", "AS zz", 'AS "zz'))):
             return f"{label}: without alias {plain!r}, with alias {ali!r}"
     return None
+
+
+# ------------------------------------------------------------------------------ remaining witness searches
+def dialect_nesting(*_args):
+    """C08: rendered under a context with unusual quote characters, no part of the text may show the default quote"""
+    from . import pk
+    ctx = pk.Query.SQL_CONTEXT.copy(quote_char="`", alias_quote_char="`", secondary_quote_char="'")
+    for label, obj in universe():
+        if not hasattr(obj, "get_sql") or "json" in label:
+            continue
+        try:
+            sql = obj.get_sql(ctx)
+        except Exception:
+            continue
+        if '"' in sql:
+            return f"{label} rendered under a context with quote_char=` contains a double quote: {sql!r}"
+    return None
+
+
+def ctx_copy(*_args):
+    from pypika_tortoise.context import DEFAULT_SQL_CONTEXT as D
+    import dataclasses
+    fields = [f.name for f in dataclasses.fields(D)]
+    for f in fields:
+        new = "XX" if not isinstance(getattr(D, f), bool) else (not getattr(D, f))
+        c = D.copy(**{f: new})
+        for g in fields:
+            want = new if g == f else getattr(D, g)
+            if getattr(c, g) != want:
+                return f"SqlContext.copy({f}={new!r}).{g} == {getattr(c, g)!r}, expected {want!r}"
+    return None
+
+
+def groupby_convention(cls_short):
+    from . import MSSQLQuery, OracleQuery, Table, pk
+    t = Table("t")
+    for qc in (MSSQLQuery, OracleQuery):
+        if cls_short and qc.__name__.replace("Query", "").lower() not in cls_short.lower():
+            continue
+        q = qc.from_(t).select((t.a + 1).as_("x")).groupby((t.a + 1).as_("x"))
+        for label, ctx in (("own context", None), ("generic context", pk.Query.SQL_CONTEXT),
+                           ("context with groupby_alias=True", qc.SQL_CONTEXT.copy(groupby_alias=True))):
+            sql = q.get_sql(ctx) if ctx is not None else q.get_sql()
+            if 'GROUP BY "x"' in sql or "GROUP BY `x`" in sql:
+                return f"{qc.__name__} under {label} groups by the select alias: {sql!r}"
+    return None
+
+
+def embedding_leak(func_short=None, cls_short=None, rk=None, flag=None):
+    """C10: the text of a statement embedded in FROM of a query with joins contains its stand-alone text"""
+    from . import Table, pk, queries_universe
+    z = Table("zz")
+    for label, q in queries_universe():
+        qc = getattr(type(vars(q).get("base_query", q)), "QUERY_CLS", None)
+        if qc is None or not hasattr(q, "as_") or "." not in label:
+            continue
+        if any(k in label for k in ("insert", "update", "delete", "upsert", "empty", "create", "drop", "load")):
+            continue
+        try:
+            alone = q.get_sql(qc.SQL_CONTEXT.copy(subquery=True))
+            outer = qc.from_(q.as_("e1")).join(z).on(z.k == 1).select("*").get_sql()
+        except Exception:
+            continue
+        if alone and alone not in outer:
+            return f"{label}: stand-alone (bracketed) text {alone!r} does not occur in the embedding {outer!r}"
+    return None
+
+
+def eq_laws(cls_short=None):
+    from . import Q, Table, pk
+    objs = [Table("a"), Table("a"), Table("a", alias="x"), Table("a", schema="s"), Table("a", schema="s"),
+            Table("a").for_(Table("a").v == 1), Q.AliasedQuery("q"), Q.AliasedQuery("q"),
+            pk.Query.from_(Table("a")).select("x"), pk.Query.from_(Table("a")).select("x").as_("al")]
+    for x in objs:
+        if not (x == x):
+            return f"{x!r} != itself"
+        for y in objs:
+            try:
+                if (x == y) != (y == x):
+                    return f"== is not symmetric on {x!r}, {y!r}"
+                if (x == y) is True and hash(x) != hash(y):
+                    return f"{x!r} == {y!r} but their hashes differ"
+                if (x != y) == (x == y) and isinstance(x == y, bool):
+                    return f"!= is not the negation of == on {x!r}, {y!r}"
+            except TypeError:
+                continue
+    return None
+
+
+def field_qualification(cls_short=None):
+    from . import Field, Table, pk
+    from pypika_tortoise.terms import Star
+    t, a = Table("t"), Table("t", alias="al")
+    base = pk.Query.SQL_CONTEXT
+    for tbl, ns, want_q in ((t, False, None), (t, True, "t"), (a, False, "al"), (a, True, "al"), (None, True, None)):
+        for mk, tail in ((lambda: Field("c", table=tbl), '"c"'), (lambda: Star(tbl), "*")):
+            sql = mk().get_sql(base.copy(with_namespace=ns))
+            want = (f'"{want_q}".' if want_q else "") + tail
+            if sql != want:
+                return f"{'Field' if tail != '*' else 'Star'} of table {tbl!r} with_namespace={ns} renders {sql!r}, expected {want!r}"
+    return None
+
+
+def qualifier_name(cls_short=None):
+    from . import Table, pk
+    cases = [(Table("t"), "t"), (Table("t", alias="x"), "x"), (pk.Query.from_(Table("t")).select("a").as_("sq"), "sq")]
+    for obj, want in cases:
+        if obj.get_table_name() != want:
+            return f"{obj!r}.get_table_name() == {obj.get_table_name()!r}, expected {want!r}"
+    return None
+
+
+def name_store(cls_short=None):
+    """C07: names containing dots, spaces, brackets are stored and rendered as one identifier"""
+    from . import Field, Index, Q, Table, pk
+    for nm in ("my.db", "a b", "x(y)", "UPPER lower", " lead"):
+        cases = [("table", Table(nm)), ("schema", Table("t", schema=nm)), ("schema list", Table("t", schema=[nm, "s2"])),
+                 ("field", Field(nm)), ("alias", Table("t").as_(nm)), ("index", Index(nm)), ("column", Q.Column(nm, "INT")),
+                 ("database", Table("t", schema=Q.Database(nm).s))]
+        for label, obj in cases:
+            try:
+                sql = obj.get_sql(pk.Query.SQL_CONTEXT.copy(with_alias=True, with_namespace=True))
+            except Exception as e:
+                return f"{label} named {nm!r} raises {type(e).__name__}"
+            if f'"{nm}"' not in sql:
+                return f"{label} named {nm!r} renders {sql!r}: the name is not one quoted identifier"
+    return None
